@@ -1,5 +1,6 @@
 import Rdpgw.Props.C03
 import Rdpgw.Model.Cookie
+import Rdpgw.Generated.ConfigDefaults
 
 /-!
 # C04 — tokens are bound to the client address they were issued to
@@ -60,6 +61,10 @@ theorem same_rule_at_issue_and_use (xffI peerI xffU peerU tokenHost : Bytes) (ne
   by_cases h : clientAddr xffI peerI = clientAddr xffU peerU
   · simp [h]
   · simp [h]
+
+/-- verification is on by default (the defaults map of `config.Load`, regenerated from the source) -/
+theorem default_on :
+    ("Security.VerifyClientIp", "true") ∈ Generated.ConfigDefaults.table := by decide
 
 /-- non-vacuity -/
 example : clientAddr [49, 48, 46, 49, 44, 32, 50] [49, 46, 49, 58, 56, 48] = [49, 48, 46, 49] := by decide
